@@ -1,19 +1,22 @@
 """C18 - Finders are exact; viewpoint re-orientation canonicalises block numbering.
 
 Ties
- (N) sphere / plane finders: real-valued model (Model/C18_Finder.v) evaluated on the very vertex lists and
-     queries given to GeometricFinder, per vertex, by `interval` goals (Proofs/C18_Corr.v tactics).
- (F) round finder: the four RoundSolidShape classes at a canonical placement are tabulated into
-     Gen/C18/Tables.v (vertices, sketch faces, what find_core/find_shell returned); Properties/C18.v proves by
-     vm_compute over Q that the model returns the same and that it is exactly the inner / rim vertex set
-     of the end disk.  Random placements go through the same two checks in generated case files.
+ (N) sphere / plane finders: real-valued model (Model/C18_Finder.v).  The correspondence hands the model the very
+     vertex lists and queries given to GeometricFinder as integer mantissas at a common binary unit; Proofs/C18_Exact.v
+     proves that on such inputs the real-valued model is decided by integer arithmetic, which the case files evaluate
+     with vm_compute for every vertex.
+ (F) round finder: the RoundSolidShape classes at canonical placements are tabulated into Gen/C18/Tables.v (vertices,
+     sketch faces, what find_core/find_shell returned); Properties/C18.v proves by vm_compute over Z that the model
+     returns the same and that it is exactly the inner / rim vertex set of the end disk.  Random placements go through
+     the same two checks in generated case files.
  (F) re-orienter: all 48 numberings of the unit cube are run through the real code and tabulated.
- (U) re-orienter: hull (recorded Qhull output) + alignment order -> Model/C18_Reorient.v `reorient`,
-     evaluated by vm_compute and compared with Operation.point_array after the real reorient();
-     the alignment order is tied to the real-valued key by `interval` goals on a sample.
+ (U) re-orienter: hull (recorded Qhull output) + alignment order -> Model/C18_Reorient.v `reorient`, evaluated by
+     vm_compute and compared with Operation.point_array after the real reorient(); on every case the alignment order is
+     checked against the real-valued sort key of the model, decided exactly (Proofs/C18_ExactAlign.v: rank_check_sound).
 """
 import json
 import math
+import time
 import warnings
 from fractions import Fraction as Fr
 
@@ -208,6 +211,8 @@ def vnorm(a):
 
 def unit(a):
     n = vnorm(a)
+    if n == 0.0:
+        return [0.0, 0.0, 0.0]
     return [a[0] / n, a[1] / n, a[2] / n]
 
 
@@ -419,22 +424,41 @@ def oracle_query(verts, q, found, tol):
     return None, exp
 
 
-def query_goal(k, verts, q, found, exp, tol):
+def reduce_dir(n):
+    """integer vector with the direction of n (own unit, common factors removed)"""
+    En = common_exp(n)
+    nz = [zint(x, En) for x in n]
+    g = math.gcd(math.gcd(abs(nz[0]), abs(nz[1])), abs(nz[2]))
+    if g == 0:
+        raise GenError("zero direction vector")
+    return [x // g for x in nz]
+
+
+def query_case(k, verts, q, found, exp, tol):
+    """one query as a tuple for Proofs/C18_Exact.v (sphere_case_ok / plane_case_ok): all vertices that are not
+    boundary cases, as integer mantissas at one common unit; the plane normal at a unit of its own"""
     keep = [i for i, (_on, b) in enumerate(exp) if not b]
     fs = set(found)
-    vs = "[" + "; ".join(vecR(verts[i]) for i in keep) + "]"
     mask = "[" + "; ".join(bl(i in fs) for i in keep) + "]"
+    vals = [tol]
+    for i in keep:
+        vals += list(verts[i])
     if q["kind"] == "sphere":
         r = tol if q["r"] is None else q["r"]
-        return ("Goal map (in_sphere_b %s %s) %s = %s.\nProof. first [ c18_each c18_sphere1; idtac \"OK %d\" | idtac \"MISMATCH %d\" ]. Abort.\n"
-                % (vecR(q["p"]), R(r), vs, mask, k, k))
-    return ("Goal map (is_point_on_plane %s %s %s) %s = %s.\nProof. first [ c18_each c18_plane1; idtac \"OK %d\" | idtac \"MISMATCH %d\" ]. Abort.\n"
-            % (R(tol), vecR(q["o"]), vecR(q["n"]), vs, mask, k, k))
+        vals += list(q["p"]) + [r]
+        E = common_exp(vals)
+        vs = "[" + "; ".join(vecZ(verts[i], E) for i in keep) + "]"
+        return "(%d%%nat, (%s, %s, %s, %s))" % (k, vecZ(q["p"], E), Z(zint(r, E)), vs, mask), len(keep)
+    vals += list(q["o"])
+    E = common_exp(vals)
+    nz = reduce_dir(q["n"])
+    vs = "[" + "; ".join(vecZ(verts[i], E) for i in keep) + "]"
+    return "(%d%%nat, (%s, %s, (%s, %s, %s), %s, %s))" % (k, Z(zint(tol, E)), vecZ(q["o"], E), Z(nz[0]), Z(nz[1]), Z(nz[2]), vs, mask), len(keep)
 
 
-HEADER_R = ("From Coq Require Import Reals List Bool.\nFrom Interval Require Import Tactic.\n"
-            "From CB Require Import Base.Hex Base.Vec3 Model.C18_Finder Model.C18_Reorient Proofs.C18_Finder Proofs.C18_Corr.\n"
-            "Import ListNotations.\nOpen Scope R_scope.\n")
+HEADER_Z = ("From Coq Require Import List Bool ZArith.\n"
+            "From CB Require Import Base.Hex Model.C18_Finder Model.C18_Reorient Proofs.C18_Exact Proofs.C18_ExactAlign.\n"
+            "Import ListNotations.\nOpen Scope Z_scope.\n")
 
 
 # ------------------------------------------------------------------------------------------------
@@ -769,47 +793,37 @@ def hull_assumption(points_canon_idx, hull):
     return all(v == 2 for v in cnt.values())
 
 
-def reo_case_text(cid, hull, rank, g, out_idx):
-    out = "None" if out_idx is None else "Some %s" % nl(out_idx)
-    return "(%d, [%s], [%s], %s, %s)" % (cid, "; ".join(nl(t) for t in hull), "; ".join(nl(r) for r in rank), nl(g), out)
+def reo_case_text(cid, c):
+    """(id, hull, rank, g, out, (observer, ceiling, points)) - coordinates as integer mantissas at one common unit"""
+    out = "None" if c["out"] is None else "Some %s" % nl(c["out"])
+    vals = list(c["observer"]) + list(c["ceiling"])
+    for p_ in c["points"]:
+        vals += list(p_)
+    E = common_exp(vals)
+    return "((%d, [%s], [%s], %s, %s)%%nat, (%s, %s, [%s]))" % (
+        cid, "; ".join(nl(t) for t in c["hull"]), "; ".join(nl(r) for r in c["rank"]), nl(c["g"]), out,
+        vecZ(c["observer"], E), vecZ(c["ceiling"], E), "; ".join(vecZ(p_, E) for p_ in c["points"]))
 
 
-REO_HEADER = ("From Coq Require Import List Bool Arith.\n"
-              "From CB Require Import Base.Hex Model.C18_Reorient Proofs.C18_Reorient.\nImport ListNotations.\n"
-              "Definition hull_of (c : nat * list (list nat) * list (list nat) * list nat * option (list nat)) := snd (fst (fst (fst c))).\n"
-              "Definition rank_of_c (c : nat * list (list nat) * list (list nat) * list nat * option (list nat)) := rank_of (snd (fst (fst c))).\n"
-              "Definition agree (c : nat * list (list nat) * list (list nat) * list nat * option (list nat)) : bool :=\n"
-              "  opt_list_eqb (reorient (hull_of c) (rank_of_c c)) (snd c).\n"
-              "Definition hyp (c : nat * list (list nat) * list (list nat) * list nat * option (list nat)) : bool :=\n"
+REO_HEADER = ("From Coq Require Import List Bool Arith ZArith.\n"
+              "From CB Require Import Base.Hex Model.C18_Finder Model.C18_Reorient Proofs.C18_Reorient Proofs.C18_ExactAlign.\nImport ListNotations.\n"
+              "Definition rcase := (nat * list (list nat) * list (list nat) * list nat * option (list nat) * (zvec * zvec * list zvec))%type.\n"
+              "Definition cid (c : rcase) := fst (fst (fst (fst (fst c)))).\n"
+              "Definition hull_of (c : rcase) := snd (fst (fst (fst (fst c)))).\n"
+              "Definition rank_of_c (c : rcase) := rank_of (snd (fst (fst (fst c)))).\n"
+              "Definition g_of (c : rcase) := snd (fst (fst c)).\n"
+              "Definition out_of (c : rcase) := snd (fst c).\n"
+              "(* the discrete model, run on the recorded hull and the order oracle, returns what the implementation returned *)\n"
+              "Definition agree (c : rcase) : bool := opt_list_eqb (reorient (hull_of c) (rank_of_c c)) (out_of c).\n"
+              "(* hypothesis of C18_same_points: the grouping is geometric for the labelling g *)\n"
+              "Definition hyp (c : rcase) : bool :=\n"
               "  (length (hull_of c) =? 12) && match group_loop (hull_of c) (rank_of_c c) normals_order (seq 0 12) with\n"
-              "  | Some qs => geometricb (snd (fst c)) (quad_of qs) | None => false end.\n"
-              "Definition concl (c : nat * list (list nat) * list (list nat) * list nat * option (list nat)) : bool :=\n"
-              "  opt_list_eqb (snd c) (Some (snd (fst c))).\n")
-
-
-def rank_goals(k0, points, hull, rank, observer, ceiling):
-    """interval goals tying the order oracle to the real-valued key: for every direction (in loop order) the two
-    chosen triangles are strictly better aligned than every other remaining triangle"""
-    goals = []
-    remaining = list(range(12))
-    ps = "[" + "; ".join(vecR(p) for p in points) + "]"
-    pre = "alignment %s %s %s" % (vecR(observer), vecR(ceiling), ps)
-    k = k0
-    for si, s in enumerate(ORDER):
-        order = [t for t in rank[si] if t in remaining]
-        chosen = order[-2:]
-        others = order[:-2]
-        conj = []
-        for t in others:
-            for c in chosen:
-                tt = " ".join(vecR(points[i]) for i in hull[t])
-                cc = " ".join(vecR(points[i]) for i in hull[c])
-                conj.append("%s %s %s < %s %s %s" % (pre, s.capitalize(), tt, pre, s.capitalize(), cc))
-        for g in conj:
-            goals.append("Goal %s.\nProof. first [ c18_align; idtac \"OK %d\" | idtac \"MISMATCH %d\" ]. Abort.\n" % (g, k, k))
-            k += 1
-        remaining = [t for t in remaining if t not in chosen]
-    return goals, k
+              "  | Some qs => geometricb (g_of c) (quad_of qs) | None => false end.\n"
+              "Definition concl (c : rcase) : bool := opt_list_eqb (reorient (hull_of c) (rank_of_c c)) (Some (g_of c)).\n"
+              "(* the order oracle is consistent with the real-valued sort keys (Proofs/C18_ExactAlign.v: rank_check_sound) *)\n"
+              "Definition rank_ok (c : rcase) : bool :=\n"
+              "  let '(obs, cei, ps) := snd c in rank_check obs cei ps (hull_of c) (rank_of_c c).\n"
+              "Open Scope Z_scope.\n")
 
 
 # ------------------------------------------------------------------------------------------------
@@ -866,29 +880,23 @@ def parse_lists(so, n):
     out = []
     for body in ms:
         body = body.strip()
-        out.append([int(x) for x in body.replace("\n", " ").split(";")] if body else [])
+        out.append([int(x.replace("%nat", "")) for x in body.replace("\n", " ").split(";")] if body else [])
     return out
-
-
-def parse_verdicts(so):
-    import re
-    ok = {int(x) for x in re.findall(r"^OK (\d+)\s*$", so, flags=re.M)}
-    bad = {int(x) for x in re.findall(r"^MISMATCH (\d+)\s*$", so, flags=re.M)}
-    return ok, bad
 
 
 class C18(Prop):
     pid = "C18"
     title = "Finders are exact; viewpoint re-orientation canonicalises block numbering"
     prebuilt = ["Base/Hex.v", "Base/Vec3.v", "Model/C18_Finder.v", "Model/C18_RoundSpec.v", "Model/C18_Reorient.v",
-                "Proofs/C18_Finder.v", "Proofs/C18_Reorient.v", "Proofs/C18_Corr.v"]
+                "Proofs/C18_Finder.v", "Proofs/C18_Reorient.v", "Proofs/C18_Exact.v", "Proofs/C18_ExactAlign.v"]
     gen_dependent_files = ["Gen/C18/Tables.v"]
     property_files = ["Properties/C18.v"]
     trusted = [
         "scipy.spatial.ConvexHull (Qhull) is an oracle: its simplices are recorded and given to the model; monitored "
         "assumption: 12 triangles, every geometric face of the convex hexahedron covered by exactly two",
         "the order in which sorted() puts the twelve triangles is given to the discrete model as an oracle computed by the "
-        "harness in floats; it is tied to the real-valued alignment key by interval goals on a sample of the cases only",
+        "harness in floats; on every case Coq checks (rank_check, sound by C18_alignment_order) that it is strictly "
+        "consistent with the real-valued alignment key of the model at the exact binary64 inputs",
         "points of a block are identified by their index (pairwise distance >> TOL is ensured by the generator)",
         "tabulation: RoundSolidFinder on 6 canonical shapes x 2 ends; ViewpointReorienter on the unit cube x 48 numberings",
         "the end disk (centre, normal, radius) of a round shape is computed by the harness from the constructor arguments",
@@ -915,15 +923,18 @@ class C18(Prop):
         res = CorrResult()
         rng = ctx.rng
         tol = get_tol()
-        res.rule = ("(a) random meshes of boxes/cylinders/frusta with sphere and plane queries: per vertex, model verdict "
-                    "(interval) = membership in the returned set; non-trivial = result neither empty nor everything; "
-                    "(b) random round shapes x both ends: model and disk specification (vm_compute over Q) = returned index "
-                    "sets; (c) 48 numberings x distorted convex blocks x viewpoints: discrete model on the recorded hull "
-                    "(vm_compute) = Operation.point_array after reorient; alignment order vs real-valued key (interval) on a "
-                    "sample; distinct by canonical JSON of the input")
+        t_py = time.time()
+        res.rule = ("(a) random meshes of boxes/cylinders/frusta with sphere and plane queries: for every vertex (boundary "
+                    "cases within 1e-9 of a threshold excluded) the verdict of the real-valued model, decided exactly on the "
+                    "integer mantissas (Proofs/C18_Exact.v, vm_compute) = membership in the returned set; non-trivial = result "
+                    "neither empty nor everything; (b) random round shapes x both ends: model and disk specification "
+                    "(vm_compute over Z) = returned index sets; (c) 48 numberings x distorted convex blocks x viewpoints: "
+                    "discrete model on the recorded hull and the order oracle (vm_compute) = Operation.point_array after "
+                    "reorient, and the order oracle is consistent with the real-valued sort keys on every case "
+                    "(rank_check, Proofs/C18_ExactAlign.v); distinct by canonical JSON of the input")
         shards = []
         # (a) sphere / plane -------------------------------------------------------------------
-        n_mesh = ctx.n(60, 600)
+        n_mesh = ctx.n(40, 600)
         qcases = []
         for mi in range(n_mesh):
             prog = gen_mesh_prog(rng)
@@ -947,19 +958,30 @@ class C18(Prop):
                     res.oracle_failures.append(dict(kind=q["kind"], prog=prog, query=q, found=found, why=why))
                 if len(res.samples) < 2 and 0 < len(found) < len(verts):
                     res.samples.append(dict(kind=q["kind"], query=q, n_vertices=len(verts), found=found))
-        per = 20
+        per = ctx.n(50, 200)
+        n_vgoals = 0
         for s0 in range(0, len(qcases), per):
-            body = [HEADER_R]
+            sph, pla = [], []
             for k in range(s0, min(s0 + per, len(qcases))):
                 prog, q, found, verts, exp = qcases[k]
-                body.append(query_goal(k, verts, q, found, exp, tol))
-            shards.append(("fq_%d" % (s0 // per), "\n".join(body)))
+                text, nv = query_case(k, verts, q, found, exp, tol)
+                n_vgoals += nv
+                (sph if q["kind"] == "sphere" else pla).append(text)
+            body = [HEADER_Z,
+                    "Definition sphere_cases : list (nat * (zvec * Z * list zvec * list bool)) := [", ";\n".join(sph), "].",
+                    "Definition plane_cases : list (nat * (Z * zvec * zvec * list zvec * list bool)) := [", ";\n".join(pla), "].",
+                    "Eval vm_compute in (map fst (filter (fun c => negb (sphere_case_ok (snd c))) sphere_cases)).",
+                    "Eval vm_compute in (map fst (filter (fun c => negb (plane_case_ok (snd c))) plane_cases))."]
+            shards.append(("fz_%d" % (s0 // per), "\n".join(body) + "\n"))
+        res.count("vertex verdicts of the real-valued model decided exactly", n_vgoals)
         # (b) round finder ---------------------------------------------------------------------
         n_round = ctx.n(40, 400)
         rcases = []
         for ri in range(n_round):
             spec = gen_round(rng)
-            if rng.random() < 0.3:
+            # (no chaining onto a SemiCylinder: its end face is a half disk, a chained full cylinder would put foreign
+            # vertices on the other half of the same circle)
+            if spec["kind"] != "semicylinder" and rng.random() < 0.3:
                 spec["chain"] = ["cylinder", 1.0, rng.randrange(2)] if rng.random() < 0.5 else ["frustum", 1.0, rng.randrange(2), 0.5]
             prog = [spec]
             if rng.random() < 0.3:
@@ -997,9 +1019,7 @@ class C18(Prop):
         perms = sym48()
         n_blocks = ctx.n(10, 300)
         n_views = ctx.n(3, 5)
-        n_rank = ctx.n(16, 120)
         ocases = []
-        rank_jobs = []
         hull_bad = 0
         for bi in range(n_blocks):
             C, views = gen_block(rng)
@@ -1032,8 +1052,6 @@ class C18(Prop):
                     res.distinct.add(json.dumps([pts, obs, cei]))
                     if why:
                         res.oracle_failures.append(dict(kind="reorient", points=pts, observer=obs, ceiling=cei, why=why))
-                    if len(rank_jobs) < n_rank and al and (cid % 37 == 0):
-                        rank_jobs.append(cid)
                     if cid == 5:
                         res.samples.append(dict(kind="reorient", points=pts, observer=obs, ceiling=cei, new_numbering=out_idx))
                 if len(outs) > 1:
@@ -1042,43 +1060,31 @@ class C18(Prop):
         if hull_bad:
             res.notes.append("Qhull assumption not met on %d cases" % hull_bad)
             res.count("hull assumption violated", hull_bad)
-        per = 480
+        per = ctx.n(180, 480)
         for s0 in range(0, len(ocases), per):
-            body = [REO_HEADER, "Definition cases : list (nat * list (list nat) * list (list nat) * list nat * option (list nat)) := ["]
-            body.append(";\n".join(reo_case_text(k, ocases[k]["hull"], ocases[k]["rank"], ocases[k]["g"], ocases[k]["out"])
-                                   for k in range(s0, min(s0 + per, len(ocases)))))
+            body = [REO_HEADER, "Definition cases : list rcase := ["]
+            body.append(";\n".join(reo_case_text(k, ocases[k]) for k in range(s0, min(s0 + per, len(ocases)))))
             body.append("].")
-            body.append("Eval vm_compute in (map (fun c => fst (fst (fst (fst c)))) (filter (fun c => negb (agree c)) cases)).")
-            body.append("Eval vm_compute in (map (fun c => fst (fst (fst (fst c)))) (filter (fun c => negb (hyp c)) cases)).")
-            body.append("Eval vm_compute in (map (fun c => fst (fst (fst (fst c)))) (filter (fun c => hyp c && negb (concl c)) cases)).")
+            body.append("Eval vm_compute in (map cid (filter (fun c => negb (agree c)) cases)).")
+            body.append("Eval vm_compute in (map cid (filter (fun c => negb (hyp c)) cases)).")
+            body.append("Eval vm_compute in (map cid (filter (fun c => hyp c && negb (concl c)) cases)).")
+            body.append("Eval vm_compute in (map cid (filter (fun c => negb (rank_ok c)) cases)).")
             shards.append(("ro_%d" % (s0 // per), "\n".join(body) + "\n"))
-        goal_owner = {}
-        gk = 0
-        for j, cid in enumerate(rank_jobs):
-            c = ocases[cid]
-            goals, gk2 = rank_goals(gk, c["points"], c["hull"], c["rank"], c["observer"], c["ceiling"])
-            for k in range(gk, gk2):
-                goal_owner[k] = cid
-            gk = gk2
-            shards.append(("rk_%d" % j, HEADER_R + "\n".join(goals)))
         # run everything -----------------------------------------------------------------------
-        ctx.log("S3: %d query goals, %d round cases, %d reorient cases, %d alignment goals in %d files"
-                % (len(qcases), len(rcases), len(ocases), gk, len(shards)))
+        ctx.log("S3: %d queries, %d round cases, %d reorient cases in %d files" % (len(qcases), len(rcases), len(ocases), len(shards)))
+        t_coq = time.time()
         results = core.run_cases_parallel(ctx, shards, timeout=1500)
-        ok_q, bad_q, ok_k, bad_k = set(), set(), set(), set()
-        hyp_fail, thm_fail = [], []
+        ctx.log("S3: case files took %.1fs wall (python part before: %.1fs)" % (time.time() - t_coq, t_coq - t_py))
+        hyp_fail, thm_fail, rank_fail = [], [], []
         for (name, rc, so, se) in results:
             if rc != 0:
                 res.error = "case file %s failed to compile: %s" % (name, se[-800:])
                 return res
-            if name.startswith("fq_"):
-                o, b = parse_verdicts(so)
-                ok_q |= o
-                bad_q |= b
-            elif name.startswith("rk_"):
-                o, b = parse_verdicts(so)
-                ok_k |= o
-                bad_k |= b
+            if name.startswith("fz_"):
+                s_bad, p_bad = parse_lists(so, 2)
+                for k in s_bad + p_bad:
+                    prog, q, found, verts, exp = qcases[k]
+                    res.mismatches.append(dict(kind=q["kind"] + "-model", prog=prog, query=q, impl=found))
             elif name.startswith("rd_"):
                 m_bad, s_bad = parse_lists(so, 2)
                 for k in m_bad:
@@ -1088,33 +1094,33 @@ class C18(Prop):
                     prog, end, verts, cf, sf, disk, core_f, shell_f = rcases[k]
                     res.mismatches.append(dict(kind="round-spec", prog=prog, end=end, impl_core=core_f, impl_shell=shell_f))
             elif name.startswith("ro_"):
-                a_bad, h_bad, t_bad = parse_lists(so, 3)
+                a_bad, h_bad, t_bad, r_bad = parse_lists(so, 4)
                 for k in a_bad:
                     c = ocases[k]
                     res.mismatches.append(dict(kind="reorient-model", points=c["points"], observer=c["observer"],
                                                ceiling=c["ceiling"], impl=c["out"], err=c["err"]))
                 hyp_fail += h_bad
                 thm_fail += t_bad
-        if (ok_q | bad_q) != set(range(len(qcases))) or (ok_k | bad_k) != set(range(gk)):
-            res.error = "some interval goals printed no verdict (%d/%d queries, %d/%d alignment goals)" % (
-                len(ok_q | bad_q), len(qcases), len(ok_k | bad_k), gk)
-            return res
-        for k in sorted(bad_q):
-            prog, q, found, verts, exp = qcases[k]
-            res.mismatches.append(dict(kind=q["kind"] + "-model", prog=prog, query=q, impl=found))
-        bad_rank_cases = sorted({goal_owner[k] for k in bad_k})
-        for cid in bad_rank_cases:
-            c = ocases[cid]
-            res.mismatches.append(dict(kind="alignment-order", points=c["points"], observer=c["observer"], ceiling=c["ceiling"],
-                                       note="the order oracle is not the order of the real-valued alignment key"))
+                rank_fail += r_bad
         if thm_fail:
-            res.error = "theorem C18_canonical contradicted on cases %s (statement or harness wrong)" % thm_fail[:5]
+            res.error = "theorem C18_same_points contradicted by the model on cases %s (statement or harness wrong)" % thm_fail[:5]
             return res
         res.count("grouping hypothesis validated (geometricb)", len(ocases) - len(hyp_fail))
         if hyp_fail:
             res.count("grouping hypothesis not met", len(hyp_fail))
             res.notes.append("grouping not geometric on %d reorient cases (first %s)" % (len(hyp_fail), hyp_fail[:3]))
-        res.count("alignment goals (interval)", gk)
+        res.count("order oracle consistent with the real-valued keys (rank_check)", len(ocases) - len(rank_fail))
+        if rank_fail:
+            # exact ties / near ties between a chosen and another triangle: the float order of the harness is then not
+            # the strict order of the real keys; tolerated as boundary cases when rare, a mismatch otherwise
+            res.boundary += len(rank_fail)
+            res.count("order oracle not strictly consistent (tie)", len(rank_fail))
+            res.notes.append("order oracle not strictly consistent with the real keys on %d cases (first %s)" % (len(rank_fail), rank_fail[:3]))
+            if len(rank_fail) > max(2, len(ocases) // 100):
+                for k in rank_fail[:5]:
+                    c = ocases[k]
+                    res.mismatches.append(dict(kind="alignment-order", points=c["points"], observer=c["observer"], ceiling=c["ceiling"],
+                                               note="the order oracle is not the order of the real-valued alignment key"))
         res.traces = len(qcases) + len(rcases) + len(ocases)
         return res
 
